@@ -628,12 +628,31 @@ def correspond(ctx):
         ("mod-sat", [f_mod[256](rx, ry) == kv(2), ry == kv(5), rx == kv(12)], [urem0(rx, ry) == kv(2), ry == kv(5), rx == kv(12)]),
     ]
     t_b5 = time.time()
+    def mulmod_abs(a_, b_, m_):
+        return z3.Extract(255, 0, f_mod[512](f_mul[512](z3.ZeroExt(256, a_), z3.ZeroExt(256, b_)), z3.ZeroExt(256, m_)))
+
+    def mulmod_exact(a_, b_, m_):
+        return z3.If(m_ == 0, kv(0), z3.Extract(255, 0, z3.URem(z3.ZeroExt(256, a_) * z3.ZeroExt(256, b_), z3.ZeroExt(256, m_))))
+
+    # 256- and 512-bit multiplications in one query, in both declaration orders (MULMOD's wide product)
+    ref_cases += [
+        ("mul256-then-mulmod-unsat", [f_mul[256](rx, ry) == kv(10), mulmod_abs(rx, ry, kv(7)) == kv(4), rx == kv(2), ry == kv(5)],
+         [rx * ry == kv(10), mulmod_exact(rx, ry, kv(7)) == kv(4), rx == kv(2), ry == kv(5)]),
+        ("mulmod-then-mul256-unsat", [mulmod_abs(rx, ry, kv(7)) == kv(3), f_mul[256](rx, ry) == kv(11), rx == kv(2), ry == kv(5)],
+         [mulmod_exact(rx, ry, kv(7)) == kv(3), rx * ry == kv(11), rx == kv(2), ry == kv(5)]),
+        ("mul256-then-mulmod-sat", [f_mul[256](rx, ry) == kv(10), mulmod_abs(rx, ry, kv(7)) == kv(3), rx == kv(2), ry == kv(5)],
+         [rx * ry == kv(10), mulmod_exact(rx, ry, kv(7)) == kv(3), rx == kv(2), ry == kv(5)]),
+        ("mulmod-then-mul256-sat", [mulmod_abs(rx, ry, kv(7)) == kv(3), f_mul[256](rx, ry) == kv(10), rx == kv(2), ry == kv(5)],
+         [mulmod_exact(rx, ry, kv(7)) == kv(3), rx * ry == kv(10), rx == kv(2), ry == kv(5)]),
+    ]
     for ri, (rname, conds_abs, conds_exact) in enumerate(ref_cases):
         t_case = time.time()
         for sname in ("yices", "z3"):
             if sname == "z3" and not rname.startswith("mul") and ctx.tier == "quick":
                 continue        # z3 takes 15-20 s on refined 256-bit division queries; yices milliseconds
-            if ctx.tier == "quick" and rname.startswith("mul") and (ri + (sname == "z3")) % 2:
+            if ctx.tier == "quick" and rname.startswith("mul-") and (ri + (sname == "z3")) % 2:
+                continue
+            if ctx.tier == "quick" and rname.startswith("mul") and not rname.startswith("mul-") and sname == "z3":
                 continue
             on, off = Pipeline(eng, True, solver_cmds[sname]), Pipeline(eng, False, solver_cmds[sname])
             # an earlier unsat query of the same function, so that the cache is not empty
